@@ -39,6 +39,16 @@ func (n *Name) Initialized() bool {
 func (n *Name) String() string {
 	var buffer bytes.Buffer
 
+	// Explicit polarity annotation, as written by the user (+x or -x)
+	if n.ExplicitPolarity != nil {
+		switch *n.ExplicitPolarity {
+		case types.POSITIVE:
+			buffer.WriteString("+")
+		case types.NEGATIVE:
+			buffer.WriteString("-")
+		}
+	}
+
 	if n.Ident != "" {
 		buffer.WriteString(n.Ident)
 		if n.IsSelf {
